@@ -20,7 +20,7 @@ def run(tier, seed, replay_path=None):
     PC.run_c15_bmc(ck, tier)
     # two clients: accounting after a store racing a delete / a get of the same (initially absent) key
     from . import C16
-    names = ['evicting set||delete', 'set||get (policy)', 'get||get (policy, expired item)', 'get||delete (policy, expired item)']
+    names = ['evicting set||delete'] + ([] if tier == 'quick' else ['evicting set||set']) + [ 'set||get (policy)', 'get||get (policy, expired item)', 'get||delete (policy, expired item)']
     ck.fork_map(names, lambda c, name: C16.run_item(c, ('policy', name), tier))
     return ck.finish()
 
